@@ -99,8 +99,22 @@ func XTypeOf(t *yang.YangType) *model.XType {
 	return x
 }
 
+// NodeBudget bounds how many nodes one dump or extraction visits.  A tree
+// under test may be damaged (a child map shared between nodes makes it a DAG or
+// a cycle whose unfolding is exponential); the harness must still return.
+const NodeBudget = 60000
+
 // ToX extracts the structural view of an entry tree.
 func ToX(e *yang.Entry, parent *model.XNode) *model.XNode {
+	budget := NodeBudget
+	return toX(e, parent, &budget, 0)
+}
+
+func toX(e *yang.Entry, parent *model.XNode, budget *int, depth int) *model.XNode {
+	*budget--
+	if *budget < 0 || depth > 250 {
+		return &model.XNode{Name: e.Name, Kind: "TRUNCATED(tree too large or too deep)", Parent: parent}
+	}
 	x := &model.XNode{Name: e.Name, Kind: XKind(e), Config: tri(e.Config), Mandatory: tri(e.Mandatory), Units: e.Units, Desc: e.Description, Key: e.Key, Parent: parent}
 	x.Default = append([]string(nil), e.Default...)
 	if ns := e.Namespace(); ns != nil {
@@ -125,7 +139,10 @@ func ToX(e *yang.Entry, parent *model.XNode) *model.XNode {
 	if e.Dir != nil {
 		x.Kids = map[string]*model.XNode{}
 		for k, c := range e.Dir {
-			cx := ToX(c, x)
+			if c == nil {
+				continue
+			}
+			cx := toX(c, x, budget, depth+1)
 			if cx.Name != k {
 				cx.Name = k + "(filed-as)/" + cx.Name
 			}
@@ -135,10 +152,10 @@ func ToX(e *yang.Entry, parent *model.XNode) *model.XNode {
 	if e.RPC != nil {
 		x.HasRPC = true
 		if e.RPC.Input != nil {
-			x.Input = ToX(e.RPC.Input, x)
+			x.Input = toX(e.RPC.Input, x, budget, depth+1)
 		}
 		if e.RPC.Output != nil {
-			x.Output = ToX(e.RPC.Output, x)
+			x.Output = toX(e.RPC.Output, x, budget, depth+1)
 		}
 	}
 	return x
@@ -263,9 +280,18 @@ func fullType(sb *strings.Builder, t *yang.YangType, depth int) {
 	sb.WriteString("}")
 }
 
+var fullBudget int
+
 func fullEntry(sb *strings.Builder, e *yang.Entry, path string, depth int) {
-	if depth > 200 {
-		fmt.Fprintf(sb, "%s: (too deep)\n", path)
+	fullBudget--
+	if depth > 200 || fullBudget < 0 {
+		if fullBudget > -5 {
+			fmt.Fprintf(sb, "%s: (tree too large or too deep: dump truncated)\n", path)
+		}
+		return
+	}
+	if e == nil {
+		fmt.Fprintf(sb, "%s: <nil entry>\n", path)
 		return
 	}
 	fmt.Fprintf(sb, "%s: kind=%s xkind=%s", path, e.Kind, XKind(e))
@@ -400,6 +426,7 @@ func Errors(errs []error) string {
 // node of every module and submodule tree.
 func Full(ms *yang.Modules, trees bool) string {
 	var sb strings.Builder
+	fullBudget = NodeBudget
 	for _, k := range sortedModKeys(ms.Modules) {
 		fmt.Fprintf(&sb, "Modules[%s] -> %s\n", k, ms.Modules[k].FullName())
 	}
